@@ -1645,7 +1645,12 @@ class TypeSystem:  # noqa: PLR0904
         """
         if klass not in self._graph:
             return OrderedSet([klass])
-        result: OrderedSet[TypeInfo] = OrderedSet(nx.descendants(self._graph, klass))
+        # nx.descendants yields a hashed set whose order depends on the string hash seed;
+        # the nodes of the graph are kept in insertion order.
+        descendants = nx.descendants(self._graph, klass)
+        result: OrderedSet[TypeInfo] = OrderedSet(
+            node for node in self._graph.nodes if node in descendants
+        )
         result.add(klass)
         return result
 
@@ -1661,7 +1666,12 @@ class TypeSystem:  # noqa: PLR0904
         """
         if klass not in self._graph:
             return OrderedSet([klass])
-        result: OrderedSet[TypeInfo] = OrderedSet(nx.ancestors(self._graph, klass))
+        # nx.ancestors yields a hashed set whose order depends on the string hash seed;
+        # the nodes of the graph are kept in insertion order.
+        ancestors = nx.ancestors(self._graph, klass)
+        result: OrderedSet[TypeInfo] = OrderedSet(
+            node for node in self._graph.nodes if node in ancestors
+        )
         result.add(klass)
         return result
 
